@@ -275,6 +275,17 @@ pub fn exec_ser(st: &mut State, t: &[&str]) -> String {
             let _ = std::fs::remove_file(&path);
             s
         },
+        // fullto <name> : serialize_to a device that refuses every write (/dev/full: ENOSPC) — the failure must be reported
+        "fullto" => {
+            let path = std::path::Path::new("/dev/full");
+            if !path.exists() { return "err".to_string(); }
+            fn via<T: Serialize>(x: &T, path: &std::path::Path) -> String { match serialize::serialize_to(x, path) { Ok(()) => "ok".to_string(), Err(_) => "err".to_string() } }
+            match st.objs.get(t[1]) {
+                Some(Obj::Raw(x)) => via(x, path), Some(Obj::Int(x)) => via(x, path), Some(Obj::Bv(x)) => via(x, path),
+                Some(Obj::Sparse(x)) => via(x, path), Some(Obj::Rl(x)) => via(x, path), Some(Obj::Wm(x)) => via(x, path),
+                None => panic!("harness: fullto: no object"),
+            }
+        },
         _ => panic!("harness: unknown ser op {}", t[0]),
     }
 }
